@@ -209,6 +209,9 @@ func runBM25History(r *rand.Rand, nops int, allowReadd bool, t *Trace) *Case {
 						docids = append(docids, uint32(800+r.Intn(3)))
 					}
 				}
+				if len(ever) > 0 && r.Intn(3) == 0 {
+					docids = shapedDocIDs(r, ever[r.Intn(len(ever))])
+				}
 			}
 			n := len(ever)
 			ks := []int{-1, 0, 1, 2, 3, n - 1, n, n + 1, 100}
